@@ -68,6 +68,8 @@ def make_metric(rec, name, inv, kw_seen):
             # array-valued metric whose second component is undefined on some samples
             top = c.tp() + c.fp()
             return np.array([float(c.fp()), float(c.tp()) if top > 0 else np.nan])
+        if name == "micro":
+            return c.fp() * 1e-6                  # the same count reported in a small unit
         return c.fp() if name == "fp_count" else c.fn()
     return metric
 
@@ -122,7 +124,8 @@ def replay_behaviour(plan, cid, ids):
     inv = sd.inv_map(G)
     src = sd.build(src_a, G)
     kw_seen = []
-    mname = "vec" if cid % 3 == 0 else "fp_count"
+    mname = ["vec", "fp_count", "micro"][cid % 3]
+    unit = 1e6 if mname == "micro" else 1.0       # projection back to counts
     ncomp = 2 if mname == "vec" else 1
     metric = make_metric(rec, mname, inv, kw_seen)
     for run_ in plan["runs"]:
@@ -139,8 +142,8 @@ def replay_behaviour(plan, cid, ids):
 
         del kw_seen[:]
         cfg = BootstrapConfig(nb_samples=n, bootstrap_method=method, sampling_method=sampler)
-        rec.ev("Start", call=call, n=n, src=rec_obj(src_a), metric=mname, t2=thr, method=method,
-               alpha=alpha)
+        rec.ev("Start", call=call, n=n, src=rec_obj(src_a), metric="fp_count" if mname == "micro" else mname,
+               t2=thr, method=method, alpha=alpha, unit=mname)
         ret = {"rows": [], "ci": [], "shape_ok": True, "same_seed_same_result": True,
                "kwargs_seen": True, "group_rows_ok": True, "exc": ""}
         try:
@@ -148,11 +151,11 @@ def replay_behaviour(plan, cid, ids):
             if call == "metric":
                 rows = np.asarray(src.bootstrap_metric(metric, config=cfg, threshold=t))
                 ret["shape_ok"] = bool(rows.shape == ((n,) if ncomp == 1 else (n, ncomp)))
-                ret["rows"] = comp_rows(rows, ncomp)
+                ret["rows"] = comp_rows(np.round(rows * unit, 6) if unit != 1.0 else rows, ncomp)
             else:
                 ci = np.asarray(src.bootstrap_ci(metric, alpha=alpha / 1000.0, config=cfg, threshold=t))
                 ret["shape_ok"] = bool(ci.shape == ((2,) if ncomp == 1 else (ncomp, 2)))
-                ret["ci"] = [[fx6(x[0]), fx6(x[1])] for x in ci.reshape(-1, 2)]
+                ret["ci"] = [[fx6(x[0] * unit), fx6(x[1] * unit)] for x in ci.reshape(-1, 2)]
             ret["kwargs_seen"] = bool(all(kw_seen)) and len(kw_seen) > 0
         except Exception as ex:  # noqa
             ret["exc"] = sd.exc_str(ex)
@@ -179,11 +182,17 @@ def seeded_behaviour(k, cid, ids, seed):
             rec.ev("Sample", obj=sd.alpha_obj(s, inv))
             return s
 
+        def fpr(self, threshold):                     # overrides a base-class metric (percent)
+            return 100.0 * Scores.fpr(self, threshold)
+
+        def pct_fnr(self, threshold):                 # a metric only the subclass has
+            return 100.0 * Scores.fnr(self, threshold)
+
     src = sd.build(o, G, cls=Rec)
     sm = ["replacement", "single_pass", "dynamic", "proportion"][k % 4]
     strat = [None, "by_label"][(k // 4) % 2]
-    name = ["fpr", "fnr", "tpr", "tnr", "topr", "tonr", "far", "frr"][k % 8]
-    canon = {"far": "fpr", "frr": "fnr"}.get(name, name)
+    name = ["fpr", "fnr", "tpr", "tnr", "topr", "tonr", "far", "frr", "pct_fnr"][k % 9]
+    canon = {"far": "fpr", "frr": "fnr", "fpr": "pct_fpr"}.get(name, name)   # "fpr" resolves to the override
     n = int(rnd.randint(1, 6))
     thr = int(rnd.randint(-1, 10))
     cfg = BootstrapConfig(nb_samples=n, sampling_method=sm, stratified_sampling=strat,
